@@ -13,6 +13,11 @@ the code for all inputs:
       of side-effect free expressions is unobservable)
   N5  `if not C: A else: B` -> `if C: B else: A`, `if a is not b: A else: B` -> `if a is b: B else: A`
       (plain if/else only, never elif chains)
+  N7  tests of if / while / conditional expressions / comprehension filters in negation normal form: `not` pushed
+      through and / or (De Morgan; short-circuit order unchanged, only truthiness is observed there) and folded into
+      is / in comparisons
+  N8  a local bound once to a call-free expression and read once, in the very next simple statement, where no other
+      call is evaluated  -> the expression is substituted for the read
   N6  `t = E` immediately followed by `return t`, where every binding of the local t is such a pair and t is used
       nowhere else  -> `return E`
 
@@ -93,6 +98,65 @@ class _Expr(ast.NodeTransformer):
     visit_Lambda = ast.NodeTransformer.generic_visit
 
 
+_FLIP = {ast.Is: ast.IsNot, ast.IsNot: ast.Is, ast.In: ast.NotIn, ast.NotIn: ast.In}
+
+
+def _nnf(t, neg=False):
+    """negation normal form of a *test* (only truthiness is observed): negations are pushed through and/or (De Morgan,
+    short-circuit order preserved) and folded into is / in comparisons; other atoms keep an explicit `not`"""
+    if isinstance(t, ast.UnaryOp) and isinstance(t.op, ast.Not):
+        return _nnf(t.operand, not neg)
+    if isinstance(t, ast.BoolOp):
+        op = t.op
+        if neg:
+            op = ast.Or() if isinstance(t.op, ast.And) else ast.And()
+        vals = []
+        for v in t.values:
+            w = _nnf(v, neg)
+            # flatten nested same-operator groups
+            if isinstance(w, ast.BoolOp) and type(w.op) is type(op):
+                vals.extend(w.values)
+            else:
+                vals.append(w)
+        return ast.copy_location(ast.BoolOp(op=op, values=vals), t)
+    if neg:
+        if isinstance(t, ast.Compare) and len(t.ops) == 1 and type(t.ops[0]) in _FLIP:
+            return ast.copy_location(ast.Compare(left=t.left, ops=[_FLIP[type(t.ops[0])]()], comparators=t.comparators), t)
+        return ast.copy_location(ast.UnaryOp(op=ast.Not(), operand=t), t)
+    return t
+
+
+class _Tests(ast.NodeTransformer):
+    """N7 applied to every test position"""
+
+    def visit_If(self, n):
+        self.generic_visit(n)
+        n.test = _nnf(n.test)
+        return n
+
+    visit_While = visit_If
+
+    def visit_IfExp(self, n):
+        self.generic_visit(n)
+        n.test = _nnf(n.test)
+        return n
+
+    def visit_Assert(self, n):
+        self.generic_visit(n)
+        n.test = _nnf(n.test)
+        return n
+
+    def visit_comprehension(self, n):
+        self.generic_visit(n)
+        n.ifs = [_nnf(i) for i in n.ifs]
+        return n
+
+    def visit_FunctionDef(self, n):
+        return n
+
+    visit_AsyncFunctionDef = visit_FunctionDef
+
+
 def _names_used(fn):
     cnt = {}
     for x in ast.walk(fn):
@@ -100,6 +164,38 @@ def _names_used(fn):
             cnt.setdefault(x.id, [0, 0])
             cnt[x.id][0 if isinstance(x.ctx, ast.Store) else 1] += 1
     return cnt
+
+
+def _inline_into(stmt, name, value):
+    """N8: replace the single use of `name` in the simple statement `stmt` by `value` when nothing with a call is
+    evaluated in that statement except the calls the use is an argument of (so no side effect can come between the
+    original evaluation point of `value` and its use).  Returns True when done."""
+    if isinstance(stmt, (ast.If, ast.For, ast.While, ast.With, ast.Try, ast.FunctionDef, ast.AsyncFunctionDef, ast.ClassDef, ast.Match)):
+        return False
+    uses = [x for x in ast.walk(stmt) if isinstance(x, ast.Name) and x.id == name and isinstance(x.ctx, ast.Load)]
+    if len(uses) != 1:
+        return False
+    use = uses[0]
+    # ancestors of the use
+    parent = {}
+    for p_ in ast.walk(stmt):
+        for c in ast.iter_child_nodes(p_):
+            parent[id(c)] = p_
+    anc = set()
+    cur = use
+    while id(cur) in parent:
+        cur = parent[id(cur)]
+        anc.add(id(cur))
+    for c in ast.walk(stmt):
+        if isinstance(c, (ast.Call, ast.Await, ast.Yield, ast.YieldFrom, ast.NamedExpr, ast.Lambda, ast.ListComp, ast.SetComp, ast.DictComp, ast.GeneratorExp)) and id(c) not in anc:
+            return False
+    # a store to a name the value reads, in the same statement, happens after the evaluation of the right-hand side
+    class R(ast.NodeTransformer):
+        def visit_Name(self, n):
+            return value if n is use else n
+
+    R().visit(stmt)
+    return True
 
 
 def _stmts(fn, localish, counts):
@@ -120,6 +216,14 @@ def _stmts(fn, localish, counts):
                 r.value = s.value
                 out.append(r)
                 i += 2
+                continue
+            if (
+                isinstance(s, ast.Assign) and len(s.targets) == 1 and isinstance(s.targets[0], ast.Name) and i + 1 < len(body)
+                and s.targets[0].id in localish and counts.get(s.targets[0].id) == [1, 1] and _pure_simple(s.value)
+                and not isinstance(s.value, (ast.Name, ast.Constant)) and not any(isinstance(x, ast.IfExp) for x in ast.walk(s.value))
+                and _inline_into(body[i + 1], s.targets[0].id, s.value)
+            ):
+                i += 1
                 continue
             out.append(s)
             i += 1
@@ -181,8 +285,9 @@ def normalise_function(fn):
     localish = set(roles.function_locals(fn)) | params
     # expressions first (N1-N4), then statements (N5 looks at tests after N1)
     t = _Expr(localish)
+    tt = _Tests()
     for i, st in enumerate(fn.body):
-        fn.body[i] = t.visit(st)
+        fn.body[i] = tt.visit(t.visit(st))
     for d in fn.args.defaults + [x for x in fn.args.kw_defaults if x is not None]:
         pass
     _stmts(fn, set(roles.function_locals(fn)), _names_used(fn))
